@@ -93,7 +93,7 @@ func c14Native() {
 	c14LockThread()
 	W := vr.Param("writers", 2)
 	R := vr.Param("readers", 1)
-	urlNames := []string{"http://example.com/crl?issuer=1", "http://example.com/crl?issuer=2"}
+	urlNames := []string{"http://example.com/crl?issuer=a", "http://example.com/crl?issuer=A"}
 	base := fskit.Root()
 	defer fskit.Cleanup()
 	skip := func(why string) {
